@@ -125,6 +125,24 @@ pub mod bp {
     pub use crate::trees::*;
 }
 
+/// Re-exports of crate-private word kernels for the external verification harness, so
+/// that every select / popcount path can be driven directly whatever the host CPU
+/// dispatches to. Not part of the API.
+#[cfg(feature = "verif-hooks")]
+#[doc(hidden)]
+pub mod verif_hooks {
+    #[cfg(target_arch = "x86_64")]
+    pub use crate::bits::verif_block_popcount_avx2 as block_popcount_avx2;
+    pub use crate::trees::verif_find_close_in_word_fast as find_close_in_word_fast;
+    pub use crate::util::broadword::select_in_word_broadword;
+    pub use crate::util::broadword::verif_select_in_word_ctz as select_in_word_ctz;
+    #[cfg(target_arch = "x86_64")]
+    pub use crate::util::simd::x86::has_fast_bmi2;
+    #[cfg(target_arch = "x86_64")]
+    pub use crate::util::simd::x86::select_in_word_pdep;
+    pub use crate::util::table::{select_in_byte, SELECT_IN_BYTE_TABLE};
+}
+
 // =============================================================================
 // Core traits
 // =============================================================================
